@@ -22,3 +22,5 @@ def run(ctx, res):
     # "a response whose transaction id equals that of a still-outstanding query": ids are compared as 8-byte values, so a
     # longer id must not be cut down to one (the gate in the dispatcher and the exact-length conversion)
     c12.rule_tid_gate(ctx, res, common.Dispatcher(ctx), gate_inside=bool(gate_inside))
+    from . import c19
+    c19.rule_prefix_extraction(ctx, res)
